@@ -105,7 +105,11 @@ func (d *plainDest) Write(p []byte) (int, error) {
 var lineBodies = []string{"a", "", "\x00b\xff", `{"k":1}`, strings.Repeat("z", 40), "line five"}
 
 func lineOf(inst, i int) string {
-	return fmt.Sprintf("%s#%d.%d\n", lineBodies[i%len(lineBodies)], inst, i)
+	body := lineBodies[i%len(lineBodies)]
+	if strings.HasSuffix(body, "\r") { // a line ending in CR LF
+		return fmt.Sprintf("%s#%d.%d\r\n", body[:len(body)-1], inst, i)
+	}
+	return fmt.Sprintf("%s#%d.%d\n", body, inst, i)
 }
 
 type op struct {
@@ -203,6 +207,41 @@ func main() {
 			}
 		}
 		r.Count("sequential_histories", r.Evals)
+		// unusual line contents: a line ending in CR LF, a lone CR inside, a 70000-byte line (beyond any 64 KiB
+		// scanner or pooling limit), an empty line - all histories of 4 operations for three level pairs
+		{
+			before := r.Evals
+			saved := lineBodies
+			lineBodies = []string{"cr\r", strings.Repeat("B", 70000), "in\rside", "", "tab\tx\v\f"}
+			L3 := 4
+			for _, pair := range [][2]zerolog.Level{{0, 3}, {3, 1}, {1, 1}} {
+				idx := make([]int, L3)
+				for {
+					hist := make([]op, L3)
+					for i := range hist {
+						hist[i] = ops[idx[i]]
+					}
+					hidx++
+					if hidx%int64(nshards) == int64(shard) {
+						runHistory(r, pair[0], pair[1], false, hist)
+					}
+					k := L3 - 1
+					for k >= 0 {
+						idx[k]++
+						if idx[k] < len(ops) {
+							break
+						}
+						idx[k] = 0
+						k--
+					}
+					if k < 0 {
+						break
+					}
+				}
+			}
+			lineBodies = saved
+			r.Count("unusual_line_histories", r.Evals-before)
+		}
 		// the same histories with the buffer-reuse limit below every buffer's capacity (what a writer that once
 		// held more than 64 KiB sees): Close must still drop what was held
 		{
